@@ -149,7 +149,7 @@ def run_case(case, ctx):
 	threads = case['threads']
 	repeats = case['repeats'] if cont in ('array', 'array_i4bounds', 'array_be_bounds', 'array_u8_bounds', 'hdf5', 'array_window', 'hdf5_window') else 1
 	sentinel = np.float32(-7.25)
-	classes = [f'func={func}', f'container={cont}', f'threads={"1" if threads == 1 else "2-4" if threads <= 4 else "5-16"}',
+	classes = (['concurrent_python_callers'] if case.get('py_threads', 1) > 1 and func in ('array', 'matrix') else []) + [f'func={func}', f'container={cont}', f'threads={"1" if threads == 1 else "2-4" if threads <= 4 else "5-16"}',
 	           f'rdt={rdt}', 'mixed_dtype' if rdt[1] != qdt[1] else 'same_width']
 	all_bits = set()
 	try:
@@ -181,6 +181,31 @@ def run_case(case, ctx):
 			if big is not None and not np.all(big[mask] == sentinel):
 				raise Violation('out_overrun', f'{func}: cells outside the strided out view were written', case)
 
+		def concurrent_same(fn, res, what):
+			# the same call made from several Python threads at once (a threaded server): every caller gets the same cells
+			T = case.get('py_threads', 1)
+			if T <= 1:
+				return
+			import threading
+			outs, errs = [None] * T, []
+
+			def work(i):
+				try:
+					outs[i] = fn()
+				except Exception as e:   # noqa
+					errs.append(e)
+			ths = [threading.Thread(target=work, args=(i,)) for i in range(T)]
+			for t_ in ths:
+				t_.start()
+			for t_ in ths:
+				t_.join()
+			if errs:
+				raise Violation('exception', f'{what} called from {T} Python threads at once raised {type(errs[0]).__name__}: {errs[0]}', case)
+			for o_ in outs:
+				if o_.shape != res.shape or not np.array_equal(np.ascontiguousarray(o_).view(np.uint32), np.ascontiguousarray(res).view(np.uint32)):
+					raise Violation('concurrent_callers', f'{what} called from {T} Python threads at once: a caller received other cells than the single call gave '
+					                f'(container {cont}, threads {threads})', case)
+
 		for rep in range(repeats):
 			if func == 'array':
 				if not queries:
@@ -199,6 +224,8 @@ def run_case(case, ctx):
 					if gb != eb:
 						raise Violation('cell', f'jaccarddist_array[{j}] = {float(res[j])!r} but pairwise distance is {J.bits_to_float(eb)!r} '
 						                f'(container {cont}, threads {threads}, repeat {rep})', case)
+				if rep == 0:
+					concurrent_same(lambda: jaccarddist_array(q, rc), res, 'jaccarddist_array')
 			elif func == 'matrix':
 				ri = case['indices']
 				if ri is not None:
@@ -225,6 +252,8 @@ def run_case(case, ctx):
 						if gb != eb:
 							raise Violation('cell', f'jaccarddist_matrix[{i},{jj}] (ref {j}) = {float(res[i, jj])!r} but pairwise distance is '
 							                f'{J.bits_to_float(eb)!r} (container {cont}, chunksize {cs}, ref_indices {ri}, threads {threads}, repeat {rep})', case)
+				if rep == 0:
+					concurrent_same(lambda: jaccarddist_matrix(qarg, rc, ref_indices=ri_arg, chunksize=cs), res, 'jaccarddist_matrix')
 				if cs is not None and cs < len(sel):
 					classes.append('multi_chunk')
 				if ri is not None:
@@ -332,6 +361,7 @@ def bulk_case(draw, tier):
 		'threads': draw(st.one_of(st.integers(2, 16), st.sampled_from([16, 2, 1, 3]), st.integers(1, 16))),
 		'repeats': 3 if tier == 'quick' else 20,
 		'poison': draw(st.sampled_from([False, False, True])),
+		'py_threads': draw(st.sampled_from([1, 1, 3, 1, 2])),
 	}
 
 
